@@ -39,6 +39,7 @@ let d2states = ref []
 let d2start = ref 0
 let brhint = ref []
 let slot0 = ref None
+let leafmap : Model.n list ref = ref []
 let slot1 = ref None
 let rhint = ref []
 let acts = ref []
@@ -111,9 +112,9 @@ let () =
             let v = mk_pairing !vhint and ds = mk_pset !dshint and r = get_rank () in
             let b x = if x then "1" else "0" in
             let pu = mk_upairs !puhint in
-            Buffer.add_string buf (Printf.sprintf "C %s %s %s %s %s %s %s %s\n" tag
+            Buffer.add_string buf (Printf.sprintf "C %s %s %s %s %s %s %s %s %s\n" tag
               (b (dfa_ok d)) (b (sim_ok d g v ds)) (b (exact_ok d g v r ds)) (b (wf_graph g)) (b (prompt_ok d g v r))
-              (b (utf8_ok d pu)) (b (utf8_strict_ok d pu ds)))
+              (b (utf8_ok d pu)) (b (utf8_strict_ok d pu ds)) (b (prompt_strict_ok d g v r)))
         | "D2" -> d2states := []; d2start := next ()
         | "Q2" ->
             let q = next () in let eo = next () in let nm = next () in
@@ -192,6 +193,38 @@ let () =
             Buffer.add_string buf (Printf.sprintf "GB %s %s %s %s %s %s\n" tag
               (String.concat " " (List.map b side)) (b (gsim_ok built g r))
               (b (wf_graph built && closed_graph built)) (b (gsim_ok dd g r2)) (b (same_size && injective)))
+        | "LM" -> let k = next () in leafmap := List.init k (fun _ -> n_of_int (next ()))
+        | "GG" ->
+            (* GG tag : the graph stored in slot 0 against the current graph with its leaves translated by the LM list (Engine/Rename.v): product walk from the roots as the relation
+               hint, then the proved checker gsim_ok; on failure the byte path to the first pair that is not related *)
+            let tag = toks.(1) in
+            let g = rename_graph (leaf_map !leafmap) (get_graph ()) in
+            (match !slot0 with
+             | None -> Buffer.add_string buf (Printf.sprintf "GG %s NOSLOT\n" tag)
+             | Some (a, _) ->
+                 let seen = Hashtbl.create 64 in
+                 let todo = Queue.create () in
+                 let order = ref [] in
+                 let push x c path = if not (Hashtbl.mem seen (x, c)) then (Hashtbl.add seen (x, c) path; order := (x, c) :: !order; Queue.add (x, c, path) todo) in
+                 push a.g_root g.g_root [];
+                 while not (Queue.is_empty todo) do
+                   let (x, c, path) = Queue.pop todo in
+                   (match gfind a x, gfind g c with
+                    | Some sa, Some sc ->
+                        List.iter (fun y -> match edge_first sa.g_edges y, edge_first sc.g_edges y with
+                                            | Some t1, Some t2 -> push t1 t2 (int_of_n y :: path) | _ -> ()) all_bytes;
+                        (match sa.g_eoi, sc.g_eoi with Some t1, Some t2 -> push t1 t2 path | _ -> ())
+                    | _ -> ())
+                 done;
+                 let tbl = Hashtbl.create 64 in
+                 Hashtbl.iter (fun (x, c) _ -> Hashtbl.replace tbl x (c :: (try Hashtbl.find tbl x with Not_found -> []))) seen;
+                 let r = Hashtbl.fold (fun x cs m -> PositiveMap.add x cs m) tbl PositiveMap.empty in
+                 let ok = gsim_ok a g r in
+                 let bad = if ok then [] else
+                   (match List.find_opt (fun (x, c) -> not (gsim_pair a g r x c)) (List.rev !order) with
+                    | Some k -> List.rev (Hashtbl.find seen k) | None -> []) in
+                 Buffer.add_string buf (Printf.sprintf "GG %s %s %s\n" tag (if ok then "1" else "0")
+                   (String.concat " " (List.map string_of_int bad))))
         | "PGM" ->
             (* start of an emitted program: root restart *)
             let r = next () in let rs = next () in
